@@ -23,14 +23,14 @@ SPEC = {
     ],
     "assumptions": [
         "queries: MATCH (n:L) WHERE n.p = v [AND n.q = w] RETURN id(n) and the inline form MATCH (n:L {p: v, ...}); values null/bool/int/float/string; lists, maps, datetime and blobs are outside the model",
-        "histories: one committed transaction per step, each touching one node (CREATE with labels and properties, SET/REMOVE items on one node, SET/REMOVE label, DETACH DELETE), create_index at a random point, compaction, close+reopen; no relationships; multi-node statements are not generated (the order of index operations inside one commit follows a HashMap)",
+        "histories: one committed transaction per step: CREATE of one node with labels and properties, SET/REMOVE items on one node or (one statement) on every node of a label / every node, SET/REMOVE label, DETACH DELETE; create_index at a random point, compaction, close+reopen; no relationships. The order of index operations inside one commit follows a HashMap; since the entries of different nodes are distinct keys (fix 02653ee) that order does not reach lookup results, and the model applies one OProps per node",
         "when compaction/reopen changes the logical store itself (C04/C05 findings) the model continues from the observed store (OResync); such histories are outside the theorem",
     ],
     "manifest": {
         "category": "proof",
         "text": "Model of the property index (maintenance at commit by creation label, no backfill, entries of deleted nodes kept, prefix lookup, seek with residual filters, fallback when the lookup is empty) and of the label scan. Proved for every history: outside the recorded classes (index created over existing data, indexed label not the creation label, int/float equality across kinds, store resynchronisation) the index holds exactly one entry per indexed node and value, and the seek plan returns exactly the rows of the scan plan. The unrestricted statement is refuted in Coq by three witnesses that the harness reproduces on the code (known findings K-C15-backfill, -label, -numeric). Two defects were repaired in /repo (duplicate rows from undeletable equal-value entries; deleted nodes returned through stale entries). Model = implementation is checked on generated histories run on two databases, with compaction and reopen.",
         "design_ref": "DESIGN.md §5 C15",
-        "level_note": "Trusted: Coq kernel; hand-written model tied to the code by sampled correspondence (not by proof); B-tree as a multiset (C26); one node per transaction.",
+        "level_note": "Trusted: Coq kernel; hand-written model tied to the code by sampled correspondence (not by proof); B-tree as a multiset (C26).",
         "technique": "Rocq proof (invariant over histories: index sound, complete and duplicate-free; sorted-list extensionality) + vm_compute witnesses + two-database differential run with model replay",
     },
 }
